@@ -8,7 +8,7 @@ the dispatcher); the driver filters the trace to the iterator-level locations.  
 run under the schedule INDUCED by the implementation's trace (the sequence of activities that
 performed an iterator-level synchronisation operation), and must produce the same operations with
 the same results, the same call/return notes per activity and the same finished flags."""
-import random
+import json, random
 import common
 
 S1, S2 = 10, 12   # SIGUSR1, SIGUSR2
@@ -499,10 +499,18 @@ def lockstep(ctx, monitors, want, with_raw=False, corr_name='lock-step: iterator
 
 
 def report(ctx, s, r, monitors):
+    """one violation per (monitor, scenario kind): the one with the shortest trace is kept"""
     for mon in monitors:
         for kind, idx, what in mon(s, r):
-            ctx.violation({'monitor': kind, 'scenario': s.name, 'acts': s.acts, 'script': s.script, 'schedule': compress(s.sched)},
-                          what, {'scenario': s.json(), 'trace': [pretty(l) for l in r['trace'] if not (l[1] == 5 and l[5] == 0)][:400], 'at': idx})
+            key = json.dumps({'monitor': kind, 'scenario': s.name, 'acts': s.acts, 'script': s.script}, sort_keys=True)
+            case = {'scenario': s.json(), 'schedule_runs': compress(s.sched),
+                    'trace': [pretty(l) for l in r['trace'] if not (l[1] == 5 and l[5] == 0)][:400], 'at': idx}
+            old = [v for v in ctx.violations if v['key'] == key]
+            if old:
+                if len(old[0]['case']['trace']) > len(case['trace']):
+                    old[0]['case'], old[0]['what'] = case, what
+            else:
+                ctx.violation(key, what, case)
 
 
 def compress(sched):
